@@ -120,6 +120,7 @@ fn class_of(size: usize) -> Option<usize> {
 static mut STATE: [u8; PAGES] = [0; PAGES];
 static mut SIZE: [u32; PAGES] = [0; PAGES];
 static mut NPG: [u8; PAGES] = [0; PAGES];
+static mut ALIGN_LOG: [u8; PAGES] = [255; PAGES];
 /// bumped every time a page becomes the head of a block: (address, generation) names a
 /// block even when addresses are reused
 static mut GEN: [u32; PAGES] = [0; PAGES];
@@ -215,6 +216,7 @@ unsafe impl GlobalAlloc for SimAlloc {
                         mprotect((BASE + p * PAGE) as *mut u8, PAGE, 3);
                         STATE[p] = HEAD;
                         SIZE[p] = l.size() as u32;
+                        ALIGN_LOG[p] = l.align().trailing_zeros() as u8;
                         NPG[p] = 1;
                         GEN[p] = GEN[p].wrapping_add(1);
                         LIVE_BLOCKS.fetch_add(1, Relaxed);
@@ -281,6 +283,7 @@ unsafe impl GlobalAlloc for SimAlloc {
         }
         STATE[p] = HEAD;
         SIZE[p] = l.size() as u32;
+        ALIGN_LOG[p] = l.align().trailing_zeros() as u8;
         NPG[p] = npages as u8;
         GEN[p] = GEN[p].wrapping_add(1);
         touch(p);
@@ -325,6 +328,12 @@ unsafe impl GlobalAlloc for SimAlloc {
             }
             if SIZE[p] as usize != l.size() {
                 report("bad-free-size", a);
+                _exit(EXIT_UAF);
+            }
+            // (the layout handed to dealloc must be the one the block was allocated with;
+            // blocks handed out again by the reuse mode do not record it)
+            if ALIGN_LOG[p] != 255 && ALIGN_LOG[p] as u32 != l.align().trailing_zeros() {
+                report("bad-free-align", a);
                 _exit(EXIT_UAF);
             }
             let n = NPG[p] as usize;
